@@ -639,6 +639,8 @@ func (e *termEnv) termOf(v ssa.Value) *Term {
 		return mk("lookup", "", e.termOf(x.X), e.termOf(x.Index))
 	case *ssa.MakeClosure:
 		return tleaf("closure:" + x.Fn.Name())
+	case *ssa.Select:
+		return tleaf("select:" + x.Name())
 	}
 	return tunk(fmt.Sprintf("%T", v))
 }
@@ -795,11 +797,8 @@ func (e *termEnv) callTerm(c *ssa.Call) *Term {
 			if callee.Name() == "Seconds" {
 				return mk("call", full, args...)
 			}
-			// getter on a concrete type: inline if trivially a field read
-			if t := e.inline(callee, cc.Args); t != nil {
-				return t
-			}
-			return mk("call", full)
+			// getter on a concrete type: kept symbolic (getter/field agreement is checked separately)
+			return mk("call", full, args...)
 		}
 	}
 	// inline small pure loop-free repo helpers (min, absDiff, getters, ...)
